@@ -1,23 +1,28 @@
 #!/bin/bash
 # usage: confirm_seed.sh <worktree> <pid-lower> <outdir>
-# Confirms a seeded change: suite passes with it, demo fails with it, demo passes without it.
+# Confirms a seeded change in a scratch worktree with a PRIVATE cargo target dir:
+# suite passes with it, demo fails with it, demo passes without it.
 wt=$1; pid=$2; out=$3
 mkdir -p $out
 cd $wt || exit 2
-export CARGO_TARGET_DIR=/tmp/mut-target CARGO_NET_OFFLINE=true
+tgt=/tmp/mut-target-$pid
+[ -d $tgt ] || cp -r /tmp/mut-target $tgt
+export CARGO_TARGET_DIR=$tgt CARGO_NET_OFFLINE=true
 git diff -- src > $out/patch.diff
 cp tests/seeded_$pid.rs $out/demo_test.rs 2>/dev/null
 [ -f seeded_out/notes.md ] && cp seeded_out/notes.md $out/notes.md
 echo "== demo WITH change" > $out/confirm.log
-cargo test --offline --test seeded_$pid >> $out/confirm.log 2>&1; with=$?
+touch src/lib.rs
+cargo test --offline --test seeded_$pid 2>&1 | tail -25 >> $out/confirm.log; with=${PIPESTATUS[0]}
 echo "== suite WITH change (demo excluded)" >> $out/confirm.log
 mv tests/seeded_$pid.rs /tmp/seeded_$pid.rs.keep
-cargo test --workspace --no-fail-fast --offline >> $out/suite.log 2>&1; suite=$?
+cargo test --workspace --no-fail-fast --offline > $out/suite.log 2>&1; suite=$?
 grep -E "^test result|FAILED|failed" $out/suite.log | head -20 >> $out/confirm.log
 mv /tmp/seeded_$pid.rs.keep tests/seeded_$pid.rs
-git stash push -q -- src
+git apply -R $out/patch.diff
+touch src/lib.rs
 echo "== demo WITHOUT change" >> $out/confirm.log
-cargo test --offline --test seeded_$pid >> $out/confirm.log 2>&1; without=$?
-git stash pop -q
+cargo test --offline --test seeded_$pid 2>&1 | tail -8 >> $out/confirm.log; without=${PIPESTATUS[0]}
+git apply $out/patch.diff
 echo "RESULT demo_with_change_exit=$with suite_with_change_exit=$suite demo_without_change_exit=$without" | tee -a $out/confirm.log
 rm -f $out/suite.log
